@@ -111,9 +111,9 @@ def design_check(tier, cov):
     cov["transitions"] += res.generated
 
 
-def initial_schedules(tier, cov, procs):
+def initial_schedules(tier, cov, procs, only=None):
     '''-> (inits [{"kerns","dm","sched","maxlen"}], members per init)'''
-    files = [f for f in c23_gen.corpus(tier) if f in c23_gen.INFO]
+    files = [f for f in (only or c23_gen.corpus(tier)) if f in c23_gen.INFO]
     members = [(f, dm, 0) for f in files for dm in (False, True)]
     results = core.pool_map(c23_gen.work_init, members, procs=procs,
                             chunksize=1)
@@ -224,7 +224,9 @@ def validate(cases, tmp, cov, workers=None, tag="cases"):
 
 def run(tier, files=None, procs=None):
     core.setup_psyclone_env()
-    par = TIERS[tier]
+    if files is None and os.environ.get("PV_C23_FILES"):
+        # restricted corpus (binding demonstrations)
+        files = [f for f in os.environ["PV_C23_FILES"].split(",") if f]
     out = core.Outcome("C23", tier, "model_checking", matchers=MATCHERS)
     cov = {"states": 0, "transitions": 0, "traces_validated_against_impl": 0,
            "samples": [], "evaluations": 0, "distinct_nontrivial": 0,
@@ -256,7 +258,7 @@ def run(tier, files=None, procs=None):
         if rejected:
             raise core.MachineryError("corpus files rejected by PSyclone: "
                                       + str(rejected))
-        inits, groups = initial_schedules(tier, cov, procs)
+        inits, groups = initial_schedules(tier, cov, procs, files)
         if not inits:
             raise core.MachineryError("no initial schedule could be projected")
         cov["initial_schedules"] = len(inits)
